@@ -43,11 +43,30 @@ Check C19_exit0_one_object_else_none : forall eval m of stdin flags prog,
 Print Assumptions C19_exit0_one_object_else_none.
 
 (* F34 (open known finding): without a script but with -o, `{}` is written to the file although
-   the exit is 1 — the statement above without its exclusion is refuted by the faithful model *)
-Lemma C19_noscript_outfile_refuted : forall eval,
-  let r := cli_run eval MNoScript true None [] None in
-  cr_exit r = Some 1 /\ cr_file r = Some [].
-Proof. intros eval. cbv zeta. split; reflexivity. Qed.
+   the exit is 1 — the statement without its exclusion is kept as a Definition and REFUTED by
+   the faithful model *)
+Definition C19_exit0_one_object_else_none_full : Prop :=
+  forall eval m of stdin flags prog,
+  let r := cli_run eval m of stdin flags prog in
+  (cr_exit r = Some 0 /\ exists o, one_object of r o) \/
+  (cr_exit r <> Some 0 /\ no_object r).
+Lemma C19_noscript_outfile_refuted : ~ C19_exit0_one_object_else_none_full.
+Proof.
+  intros H. specialize (H eval_release MNoScript true None [] None). cbv zeta in H.
+  destruct H as [[H _]|[_ [_ H]]]; vm_compute in H; discriminate.
+Qed.
+
+(* the statement for the driver as repaired by fixes/C19-no-output-file-on-error.diff: no exclusion *)
+Theorem C19_exit0_one_object_else_none_fixed34 : forall eval m of stdin flags prog,
+  let r := cli_run_fixed34 eval m of stdin flags prog in
+  (cr_exit r = Some 0 /\ exists o, one_object of r o) \/
+  (cr_exit r <> Some 0 /\ no_object r).
+Proof. exact exit0_one_object_else_none_fixed34. Qed.
+Check C19_exit0_one_object_else_none_fixed34 : forall eval m of stdin flags prog,
+  let r := cli_run_fixed34 eval m of stdin flags prog in
+  (cr_exit r = Some 0 /\ exists o, one_object of r o) \/
+  (cr_exit r <> Some 0 /\ no_object r).
+Print Assumptions C19_exit0_one_object_else_none_fixed34.
 
 (* Reading the inputs fails (exit 1 before anything is evaluated) exactly when one of the
    sources — stdin if consulted, then each --input — is not valid JSON. *)
@@ -114,12 +133,19 @@ Check C19_output_value_at_declaration : forall release bi bu d m of stdin flags 
 Print Assumptions C19_output_value_at_declaration.
 
 (* F33 (open known finding): `output constants` succeeds, the CLI exits 0, and the object is
-   empty although `constants` was declared — the keys statement without [binding_decl] is refuted *)
-Lemma C19_outputs_nonbinding_refuted :
-  let p := [SOut (EId "constants")] in
-  let r := cli_run eval_release MInline false None [] (Some p) in
-  cr_exit r = Some 0 /\ cr_stdout r = Some [] /\ decl_names p = ["constants"].
-Proof. vm_compute. repeat split. Qed.
+   empty although `constants` was declared — the keys statement without [binding_decl] is kept
+   as a Definition and REFUTED by the faithful model *)
+Definition C19_outputs_keys_full : Prop :=
+  forall m of stdin flags p o,
+  cr_exit (cli_run eval_release m of stdin flags (Some p)) = Some 0 ->
+  one_object of (cli_run eval_release m of stdin flags (Some p)) o ->
+  map fst o = fold_left add_key (decl_names p) [].
+Lemma C19_outputs_nonbinding_refuted : ~ C19_outputs_keys_full.
+Proof.
+  intros H. specialize (H MInline false None [] [SOut (EId "constants")] []).
+  assert (["constants"] = @nil string) as E; [|discriminate].
+  symmetry. apply H; vm_compute; auto.
+Qed.
 
 (* the hypotheses are satisfiable: a script with a re-declaration *)
 Definition n (z : Z) : expr := ENum (num_of_Z z).
